@@ -458,6 +458,18 @@ func C15(c *hx.Ctx) {
 	gxzFullStdout(c, bin)
 	// preset round trips and xz-utils interoperability
 	plain := MakeData("alternating", 60000, c.Seed)
+	// "-0 ... -9 compression preset; default is 6": no preset option and -6 give the same bytes
+	for _, format := range []string{"xz", "lzma"} {
+		dir, _ := os.MkdirTemp(c.Scratch, "dflt")
+		os.WriteFile(filepath.Join(dir, "d.bin"), plain, 0o644)
+		a := runCli(bin, dir, []string{"-c", "-F", format, "d.bin"})
+		b := runCli(bin, dir, []string{"-c", "-6", "-F", format, "d.bin"})
+		c.Count(2, 1)
+		if a.exit != 0 || b.exit != 0 || !bytes.Equal(a.stdout, b.stdout) {
+			c.Violation(map[string]string{"kind": "default-preset", "fmt": format}, fmt.Sprintf("gxz -c (%s) and gxz -6 -c differ: exit %d/%d, %d vs %d bytes", format, a.exit, b.exit, len(a.stdout), len(b.stdout)), map[string]any{"format": format})
+		}
+		os.RemoveAll(dir)
+	}
 	for _, format := range []string{"xz", "lzma"} {
 		for preset := 0; preset <= 9; preset++ {
 			dir, _ := os.MkdirTemp(c.Scratch, "rt")
